@@ -116,6 +116,12 @@ CLAIMED = {
         "Real arithmetic; np.linalg.inv/solve parameters with contract 'exact'. Components never observed are outside the monotonicity theorem's guard (they contribute a constant); their handling (keep sigma) is C10_sigma_floor + correspondence. Found and fixed D8.",
         "§6 C10",
     ),
+    "C12": (
+        "Lean 4 theorems: the regrouping loop of _prepare_dask_input on any partitioning equals the loop on the flattened bag (so per-class lists, and whole ISV/JFA fits, do not depend on the partitioning); the pairwise reduction of any non-empty list is the singleton of its sum (strong induction on the length, both parities); i-vector per-partition E-steps + tree reduction = in-memory E-step; order/isolation determinacy from the discipline check; the model's regrouping and tree reduction executed on the real partition layouts / recorded per-partition accumulators, recorded bag graphs through the discipline, and bag-vs-list differential runs",
+        "Proof for every number and size of partitions (incl. single-element and empty ones), every label sequence, every list length of the reduction, every dependency-respecting order of a disciplined graph. Tie: the real _prepare_dask_input output vs the model, ivector e_step partial sums vs the model's treeReduce, ISV / JFA / i-vector fit(dask.bag) vs list for 1..N partitions under synchronous, random-order and isolating executors (thorough: also the processes scheduler).",
+        "Atomic unit = Dask task. dask.bag's own partitioning function is not modelled: the layout is read back from the bag.",
+        "§6 C12",
+    ),
 }
 
 NOT_YET = "check not built yet in this round (see DESIGN.md §8 order of work); not claimed"
